@@ -605,6 +605,80 @@ func runC07(c *core.Ctx) {
 		}
 	}
 
+	c.Rule("C07.unioninterests", "a union explores each child once: in (ExploreUnion).Interests every interest taken from a member's Interests() is added to the result only after a comparison (PathSegment.Equals, directly or in a helper) with what was collected so far - the walk explores every listed segment, so a segment listed once per member would be explored (with its whole subtree) once per member; and the members are asked at one site only (nested unions would otherwise cost exponentially many calls)", 2)
+	if fn := p.Func(rel, "ExploreUnion", "Interests"); fn != nil {
+		var memberCalls []*ssa.Call
+		for _, ci := range core.CallsR(fn) {
+			if cv := core.CallValue(ci); cv != nil && cv.Call.IsInvoke() && cv.Call.Method.Name() == "Interests" {
+				memberCalls = append(memberCalls, cv)
+			}
+		}
+		callsEquals := func(ci ssa.CallInstruction) bool {
+			if core.IsMethod(ci, "", "PathSegment", "Equals") {
+				return true
+			}
+			if cal := ci.Common().StaticCallee(); cal != nil && len(cal.Blocks) > 0 && core.FuncPkg(cal) == core.FuncPkg(fn) {
+				for _, cj := range core.CallsR(cal) {
+					if core.IsMethod(cj, "", "PathSegment", "Equals") {
+						return true
+					}
+				}
+			}
+			return false
+		}
+		// asking a member is not free (a member that is a union asks all of its members): one asking site, so that k
+		// nested unions cost k calls and not 2^k
+		c.Check(len(memberCalls) == 1, core.FuncKey(fn)+"#members-asked-once", p.Pos(fn.Pos()), "each member is asked for its interests at one site", fmt.Sprintf("the members' Interests() is called at %d sites of the function: every level of nested unions multiplies the calls, and a selector of a few hundred bytes makes the first step of a walk take exponential time", len(memberCalls)))
+		nap := 0
+		for _, ci := range core.CallsR(fn) {
+			b, ok := ci.Common().Value.(*ssa.Builtin)
+			if !ok || b.Name() != "append" || len(ci.Common().Args) < 2 {
+				continue
+			}
+			// appends to the list of segments (not to a list of the members' lists kept for a second pass)
+			if sl, ok := ci.Common().Args[0].Type().Underlying().(*types.Slice); !ok || !isPathSegment(sl.Elem()) {
+				continue
+			}
+			fromMember := false
+			for w := range core.BackSlice(ci.Common().Args[1], core.SliceOpts{Stores: true, ThroughCallsIf: func(cl *ssa.Call) bool {
+				b, ok := cl.Call.Value.(*ssa.Builtin)
+				return ok && b.Name() == "append" // the members' lists may be kept in a slice between asking and collecting
+			}}) {
+				for _, mc := range memberCalls {
+					if w == ssa.Value(mc) {
+						fromMember = true
+					}
+				}
+			}
+			if !fromMember {
+				continue
+			}
+			nap++
+			// no path from the function's entry reaches the append without a comparison in between the reading of the
+			// member's interests and the append: look from every member call
+			bad := false
+			var wp []string
+			for _, mc := range memberCalls {
+				if _, r := core.Reach(fn, mc, isTarget(ci), nil, nil); !r {
+					continue
+				}
+				if path, reached := core.Reach(fn, mc, isTarget(ci), nil, func(in ssa.Instruction) bool {
+					cj, ok := in.(ssa.CallInstruction)
+					return ok && callsEquals(cj)
+				}); reached {
+					bad = true
+					wp = p.Witness(path)
+				}
+			}
+			c.Check(!bad, fmt.Sprintf("%s#interest-added-once%d", core.FuncKey(fn), nap), p.Pos(ci.Pos()), "interests are compared with what was collected before they are added", "a member's interests are appended to the union's without comparing them with what is already there: a field or index named by two members is listed twice and the walk visits that child, and everything below it, twice", wp...)
+		}
+		if nap == 0 {
+			c.Undecided(core.FuncKey(fn)+"#appends", p.Pos(fn.Pos()), "no append of a member's interests found")
+		}
+	} else {
+		c.Undecided("traversal/selector.(ExploreUnion).Interests", "-", "not found")
+	}
+
 	c.Rule("C07.stopat", "the stop-at condition names one link: every value (*Condition).Match can return as true derives from a comparison of the two links as wholes - Cid.Equals, or equality of their String()/Binary()/KeyString()/Bytes() - and never from a comparison of a part of the CID (its multihash, prefix, codec or version): a different link that merely shares the hash must not stop the recursion", 1)
 	if fn := p.Func("traversal/selector", "*Condition", "Match"); fn != nil {
 		whole := map[string]bool{"Equals": true, "String": true, "Binary": true, "KeyString": true, "Bytes": true, "AsLink": true, "Kind": true}
